@@ -256,6 +256,8 @@ def theorem_family(ew, enc, names):
                 return "mov_rr"
             if sorted(regs) in (["creg", "gpq"], ["dreg", "gpq"]):
                 return "mov_crdr"
+            if "sreg" in regs and any(wide(r) for r in regs):
+                return "mov_sreg"
             return None
         if sig in ("RM", "MR"):
             r = regs[0] or regs[1]
